@@ -168,6 +168,9 @@ type attCase struct {
 	// property ("at the current time"), varied to catch verification at another time.
 	NotBefore int64 `json:"slot_cert_not_before,omitempty"`
 	NotAfter  int64 `json:"slot_cert_not_after,omitempty"`
+	// HostTrust: the attestor was built by NewAttestor from PEM files while the
+	// process's system trust store (SSL_CERT_FILE) held this certificate.
+	HostTrust string `json:"host_trust_store_der_hex,omitempty"`
 }
 
 var ring *ev.Ring
@@ -253,21 +256,29 @@ func main() {
 		p.pool = x509.NewCertPool()
 		p.pool.AddCert(p.root)
 		p.attestor = yubiattest.NewAttestorWithCAPool(p.pool)
-		if r.Seed%2 == 1 {
-			// every other seed: the attestor is built from PEM files, as a deployment does (the second file holds an unrelated root)
-			if dir, derr := os.MkdirTemp("", "roots"); derr == nil {
-				defer os.RemoveAll(dir)
-				_, u2f, u2fDER := newCA("verif U2F root")
-				_ = u2f
-				piv, u2fp := filepath.Join(dir, "piv.pem"), filepath.Join(dir, "u2f.pem")
-				os.WriteFile(piv, pem.EncodeToMemory(&pem.Block{Type: "CERTIFICATE", Bytes: p.rootDER}), 0o600)
-				os.WriteFile(u2fp, pem.EncodeToMemory(&pem.Block{Type: "CERTIFICATE", Bytes: u2fDER}), 0o600)
-				if a, aerr := yubiattest.NewAttestor(piv, u2fp); aerr == nil {
-					p.attestor = a
-					r.Count("attestor built from PEM root files", 1)
-				} else {
-					r.Violation(r.CaseAlways("attestor", 0), "attestor-construction-from-files-fails", aerr.Error(), nil)
-				}
+		// A second attestor is built from PEM files, as a deployment does (the second
+		// file holds an unrelated root). Before that — and before anything in this
+		// process has consulted the host's trust store — the trust store is pointed at
+		// a bundle holding "verif other CA": a CA trusted by the host but not
+		// configured as an attestation root, whose device certificates (chain-other-ca)
+		// must be refused like any other impostor's.
+		var fileAtt *yubiattest.Attestor
+		if dir, derr := os.MkdirTemp("", "roots"); derr == nil {
+			defer os.RemoveAll(dir)
+			sys := filepath.Join(dir, "host-trust.pem")
+			os.WriteFile(sys, pem.EncodeToMemory(&pem.Block{Type: "CERTIFICATE", Bytes: p.other.Raw}), 0o600)
+			os.Mkdir(filepath.Join(dir, "empty"), 0o700)
+			os.Setenv("SSL_CERT_FILE", sys)
+			os.Setenv("SSL_CERT_DIR", filepath.Join(dir, "empty"))
+			_, _, u2fDER := newCA("verif U2F root")
+			piv, u2fp := filepath.Join(dir, "piv.pem"), filepath.Join(dir, "u2f.pem")
+			os.WriteFile(piv, pem.EncodeToMemory(&pem.Block{Type: "CERTIFICATE", Bytes: p.rootDER}), 0o600)
+			os.WriteFile(u2fp, pem.EncodeToMemory(&pem.Block{Type: "CERTIFICATE", Bytes: u2fDER}), 0o600)
+			if a, aerr := yubiattest.NewAttestor(piv, u2fp); aerr == nil {
+				fileAtt = a
+				r.Count("attestor built from PEM root files (host trust store holds another CA)", 1)
+			} else {
+				r.Violation(r.CaseAlways("attestor", 0), "attestor-construction-from-files-fails", aerr.Error(), nil)
 			}
 		}
 		rootsHex := hex.EncodeToString(p.rootDER)
@@ -329,7 +340,12 @@ func main() {
 				if sig == nil {
 					sig = d.signRaw(emsg)
 				}
-				runCase(r, c, p.attestor, f9, ac, sig, tbs)
+				att := p.attestor
+				if fileAtt != nil && (int64(c.Index)+r.Seed)%2 == 1 {
+					att = fileAtt
+					ac.HostTrust = hex.EncodeToString(p.other.Raw)
+				}
+				runCase(r, c, att, f9, ac, sig, tbs)
 			}
 		}
 
@@ -557,5 +573,22 @@ func replay(r *ev.Run) {
 	}
 	pool := x509.NewCertPool()
 	pool.AddCert(root)
-	runCase(r, r.CaseAlways(r.Replay.Family, r.Replay.Index), yubiattest.NewAttestorWithCAPool(pool), f9, ac, dec(ac.Sig), dec(ac.TBS))
+	att := yubiattest.NewAttestorWithCAPool(pool)
+	if ac.HostTrust != "" {
+		if dir, derr := os.MkdirTemp("", "roots"); derr == nil {
+			defer os.RemoveAll(dir)
+			w := func(name, h string) string {
+				f := filepath.Join(dir, name)
+				os.WriteFile(f, pem.EncodeToMemory(&pem.Block{Type: "CERTIFICATE", Bytes: dec(h)}), 0o600)
+				return f
+			}
+			os.Mkdir(filepath.Join(dir, "empty"), 0o700)
+			os.Setenv("SSL_CERT_FILE", w("host-trust.pem", ac.HostTrust))
+			os.Setenv("SSL_CERT_DIR", filepath.Join(dir, "empty"))
+			if a, aerr := yubiattest.NewAttestor(w("piv.pem", ac.Roots), w("u2f.pem", ac.Roots)); aerr == nil {
+				att = a
+			}
+		}
+	}
+	runCase(r, r.CaseAlways(r.Replay.Family, r.Replay.Index), att, f9, ac, dec(ac.Sig), dec(ac.TBS))
 }
